@@ -13,6 +13,8 @@ mod edit;
 mod lossy;
 mod pgp;
 mod rel;
+mod relc14;
+mod reledit;
 mod relspec;
 mod sat;
 mod total;
@@ -55,6 +57,12 @@ fn dispatch(op: &str, args: &[&str]) -> Option<Resp> {
     if let Some(r) = codec::handle(op, args) {
         return Some(r);
     }
+    if let Some(r) = reledit::handle(op, args) {
+        return Some(r);
+    }
+    if let Some(r) = relc14::handle(op, args) {
+        return Some(r);
+    }
     if let Some(r) = typeddoc::handle(op, args) {
         return Some(r);
     }
@@ -81,7 +89,10 @@ fn dispatch(op: &str, args: &[&str]) -> Option<Resp> {
 
 fn generate(prop: &str, tier: &str, seed: u64, out: &mut util::Out) {
     match prop {
+        "C11" => reledit::generate_c11(tier, seed, out),
         "C12" => sat::generate_c12(tier, seed, out),
+        "C13" => reledit::generate_c13(tier, seed, out),
+        "C14" => relc14::generate_c14(tier, seed, out),
         "C15" => typed::generate_c15(tier, seed, out),
         "C16" => derive::generate_c16(tier, seed, out),
         "C17" => cpr::generate_c17(tier, seed, out),
